@@ -181,6 +181,17 @@ def _collection_parts(c: Term, gens: tuple, sa: SetAlg) -> list:
     return [(("ALL", c), gens)]
 
 
+def nx_rewrite(t: Term):
+    """networkx identities used when rules about DiGraphs are compared: the out-edges of a node are as many as its successors (and empty
+    together with them); out_degree / in_degree count successors / predecessors."""
+    h = t[0]
+    if h in ("truth", "len") and t[1][0] == "meth" and t[1][2] in ("out_edges", "in_edges") and len(t[1][3]) == 1 and not t[1][4]:
+        return (h, ("meth", t[1][1], "successors" if t[1][2] == "out_edges" else "predecessors", t[1][3], ()))
+    if h == "meth" and t[2] in ("out_degree", "in_degree") and len(t[3]) == 1 and not t[4]:
+        return ("len", ("meth", t[1], "successors" if t[2] == "out_degree" else "predecessors", t[3], ()))
+    return None
+
+
 def nx_builder_parts(t: Term, sa: SetAlg):
     """(base, node parts, edge parts) of a networkx graph term built by effects on a fresh graph; None if it is not one."""
     effs = []
